@@ -98,8 +98,9 @@ TilesIn(m) == {a \in Addr : Main(a) = m}
 OpenMeet(r, s)   == r[1] < s[3] /\ s[1] < r[3] /\ r[2] < s[4] /\ s[2] < r[4]
 ClosedMeet(r, s) == r[1] <= s[3] /\ s[1] <= r[3] /\ r[2] <= s[4] /\ s[2] <= r[4]
 \* "full" is the complete extent of the grid: every tile of the grid is inside
-Intersects(m, c) == c = "full" \/ \E r \in Covs[c] : OpenMeet(MetaRect(m), r)
-Touches(m, c)    == ~Intersects(m, c) /\ \E r \in Covs[c] : ClosedMeet(MetaRect(m), r)
+Intersects(m, c) == IF c = "full" THEN TRUE ELSE \E r \in Covs[c] : OpenMeet(MetaRect(m), r)
+Touches(m, c)    == IF c = "full" THEN FALSE
+                    ELSE (~\E r \in Covs[c] : OpenMeet(MetaRect(m), r)) /\ \E r \in Covs[c] : ClosedMeet(MetaRect(m), r)
 
 ---------------------------------------------------------------------------
 \* contents
